@@ -93,12 +93,13 @@ class HTTPChannel(wasyncore.dispatcher):
 
         # try to flush any pending output
         if not self.requests:
-            # 1. There are no running tasks, so we don't need to try to lock
-            #    the outbuf before sending
+            # 1. There are no queued tasks, but a task thread may still be
+            #    finishing service() and sending a 100 Continue from there, so
+            #    we try to lock the outbuf before sending
             # 2. The data in the out buffer should be sent as soon as possible
             #    because it's either data left over from task output
             #    or a 100 Continue line sent within "received".
-            flush = self._flush_some
+            flush = self._flush_some_if_lockable
         elif self.total_outbufs_len >= self.adj.send_bytes:
             # 1. There's a running task, so we need to try to lock
             #    the outbuf before sending
